@@ -43,3 +43,43 @@ fn limited_stacks_contain_the_stack_pointer() {
     assert!(limited > 0, "the size limit did not trigger; nothing was checked");
     assert!(bad.is_empty(), "{} of {} captured stacks do not contain the stack pointer:\n{}", bad.len(), thread_list.threads.len(), bad.join("\n"));
 }
+
+/// C06: "never the thread given by a crash context": with a size limit that triggers, more than 20 threads and
+/// a crash context naming a thread at list position >= 20, that thread's stack is NOT shortened.
+#[test]
+fn crash_context_thread_is_never_shortened() {
+    let mut child = start_child_and_wait_for_threads(30);
+    let pid = child.id() as i32;
+    let plain = MinidumpWriter::new(pid, pid).dump(&mut std::io::Cursor::new(Vec::new())).expect("plain dump");
+    let dump = Minidump::read(plain.as_slice()).unwrap();
+    let list: MinidumpThreadList = dump.get_stream().unwrap();
+    let victim = &list.threads[25];
+    let tid = victim.raw.thread_id as i32;
+    let full = victim.raw.stack;
+    let ctx = victim.raw.thread_context;
+    let c = &plain[ctx.rva as usize..(ctx.rva + ctx.data_size) as usize];
+    let rsp = u64::from_le_bytes(c[0x98..0xa0].try_into().unwrap());
+    assert!(full.memory.data_size > 2048, "sanity: the unlimited stack is larger than the cap");
+
+    let mut inner: crash_context::CrashContext = unsafe { std::mem::zeroed() };
+    inner.context.uc_mcontext.gregs[libc::REG_RSP as usize] = rsp as i64;
+    inner.context.uc_mcontext.gregs[libc::REG_RIP as usize] = 0x1000;
+    inner.siginfo.ssi_signo = libc::SIGSEGV as u32;
+    inner.pid = pid;
+    inner.tid = tid;
+    let mut w = MinidumpWriter::new(pid, tid);
+    w.set_crash_context(minidump_writer::crash_context::CrashContext { inner });
+    w.set_minidump_size_limit(64 * 1024);
+    let bytes = w.dump(&mut std::io::Cursor::new(Vec::new())).expect("limited dump");
+    child.kill().expect("Failed to kill process");
+    child.wait().expect("Failed to wait on killed process");
+    let dump = Minidump::read(bytes.as_slice()).unwrap();
+    let list: MinidumpThreadList = dump.get_stream().unwrap();
+    let pos = list.threads.iter().position(|t| t.raw.thread_id == tid as u32).expect("listed");
+    assert!(pos >= 20, "sanity: the blamed thread is at list position {pos}");
+    let limited_others = list.threads.iter().enumerate().filter(|(i, t)| *i >= 20 && t.raw.thread_id != tid as u32 && t.raw.stack.memory.data_size <= 2048).count();
+    assert!(limited_others > 0, "sanity: the limit triggered");
+    let got = list.threads[pos].raw.stack;
+    assert_eq!((got.start_of_memory_range, got.memory.data_size), (full.start_of_memory_range, full.memory.data_size),
+               "the crash-context thread at position {pos} was shortened");
+}
